@@ -102,7 +102,6 @@ impl VHDLFormatter<'_> {
         self.format_component_specification(&config.spec, buffer);
         indented!(buffer, {
             if let Some(binding_indication) = &config.bind_ind {
-                buffer.line_break();
                 self.format_binding_indication(binding_indication, buffer)
             }
             self.format_v_unit_binding_indications(&config.vunit_bind_inds, buffer);
@@ -121,10 +120,15 @@ impl VHDLFormatter<'_> {
         self.format_token_id(config.span.end_token, buffer);
     }
 
+    /// Formats a binding indication; the entity aspect and the map aspects
+    /// are each written to a new line.
+    /// All parts are optional, i.e., the binding indication of a configuration specification
+    /// can consist of map aspects only or of nothing but the terminating semicolon.
     pub fn format_binding_indication(&self, indication: &BindingIndication, buffer: &mut Buffer) {
-        // use
-        self.format_token_id(indication.span.start_token, buffer);
         if let Some(aspect) = &indication.entity_aspect {
+            buffer.line_break();
+            // use
+            self.format_token_id(indication.span.start_token, buffer);
             buffer.push_whitespace();
             self.format_token_id(indication.span.start_token + 1, buffer);
             buffer.push_whitespace();
@@ -142,19 +146,21 @@ impl VHDLFormatter<'_> {
                 }
                 EntityAspect::Open => {}
             }
+            // The map aspects are indented relative to the entity aspect
+            buffer.increase_indent();
         }
         if let Some(map_aspect) = &indication.generic_map {
-            indented!(buffer, {
-                buffer.line_break();
-                self.format_map_aspect(map_aspect, buffer);
-            });
+            buffer.line_break();
+            self.format_map_aspect(map_aspect, buffer);
         }
         if let Some(map_aspect) = &indication.port_map {
-            indented!(buffer, {
-                buffer.line_break();
-                self.format_map_aspect(map_aspect, buffer);
-            });
+            buffer.line_break();
+            self.format_map_aspect(map_aspect, buffer);
         }
+        if indication.entity_aspect.is_some() {
+            buffer.decrease_indent();
+        }
+        // ;
         self.format_token_id(indication.span.end_token, buffer);
     }
 
@@ -165,7 +171,6 @@ impl VHDLFormatter<'_> {
     ) {
         self.format_component_specification(&configuration.spec, buffer);
         indented!(buffer, {
-            buffer.line_break();
             self.format_binding_indication(&configuration.bind_ind, buffer);
             self.format_v_unit_binding_indications(&configuration.vunit_bind_inds, buffer);
         });
